@@ -106,15 +106,54 @@ async def _run_history(S, srv, history):
     return answers
 
 
+_PARSER = None
+
+
+def cli_build(argv):
+    """the virtual ECU as `gallia <argv>` builds it: the real parser over the whole command tree -> the command's config
+    (RngVirtualECUConfig) -> the command object -> its own `_server()`.  No transport is created.
+    -> (server, config)"""
+    global _PARSER
+    import gallia.command  # noqa: F401
+    from gallia.cli.gallia import create_parser, get_command
+    from gallia.plugins.plugin import load_commands
+
+    if _PARSER is None:
+        _PARSER = create_parser(load_commands())
+    try:
+        _, config = _PARSER.parse_typed_args(list(argv))
+    except SystemExit as e:
+        raise RuntimeError(f"argument parser exits with {e.code}") from None
+    cmd = get_command(config)
+    return cmd._server(), config
+
+
+def params_fingerprint(srv):
+    """the arguments that reached RandomUDSServer, lists in the order randomize() walks them"""
+    P = srv.randomness_parameters
+    return {"seed": srv.seed,
+            "mandatory_sessions": [int(x) for x in P.mandatory_sessions],
+            "optional_sessions": [int(x) for x in P.optional_sessions],
+            "mandatory_services": [int(x) for x in P.mandatory_services],
+            "optional_services": [int(x) for x in P.optional_services],
+            "p": [P.p_session, P.p_service, P.p_sub_function, P.p_identifier, P.p_correct_payload_format, P.p_dtc_status_mask]}
+
+
 def transcript(S, cfg, clock_base=0.0, history=None):
-    """cfg = {"seed": int, "params": {...RandomnessParameters kwargs...}, "history": [hex | "unlock:<sf>"]}"""
+    """cfg = {"seed": int, "params": {...RandomnessParameters kwargs...}, "history": [hex | "unlock:<sf>"]}
+    or    {"argv": [...command line of `gallia script vecu rng ...`...], "history": [...]}"""
     S.time = Clock(clock_base)
-    P = S.RandomUDSServer.RandomnessParameters(**cfg["params"])
-    srv = S.RandomUDSServer(cfg["seed"], P)
+    if "argv" in cfg:
+        srv, _config = cli_build(cfg["argv"])
+    else:
+        P = S.RandomUDSServer.RandomnessParameters(**cfg["params"])
+        srv = S.RandomUDSServer(cfg["seed"], P)
     loop = asyncio.new_event_loop()
     try:
         loop.run_until_complete(srv.setup())
         out = {"model": dump_services(srv.services)}
+        if "argv" in cfg:
+            out["params"] = params_fingerprint(srv)
         h = cfg.get("history") if history is None else history
         if h is not None:
             out["answers"] = loop.run_until_complete(_run_history(S, srv, h))
